@@ -12,8 +12,9 @@ import uuid as _uuid
 
 SPECIAL = ["|", ";", "\\", ",", '"', "\n", "é", "日本", "a|b", "x;y", "\\;", "tab\there", "q'uote", "ü ber", "\U0001F600"]
 WORDS = ["yes", "no", "red", "blue", "stop", "go", "one two", "7", "Alpha"]
-TESTS1 = ["has_any_word", "has_phrase", "has_only_phrase", "has_beginning", "has_number_eq", "has_pattern", "has_only_text", "has_number_gt"]
-TESTS0 = ["has_text", "has_number", "has_email"]
+TESTS1 = ["has_any_word", "has_phrase", "has_only_phrase", "has_beginning", "has_number_eq", "has_pattern", "has_only_text", "has_number_gt",
+          "all_words", "has_number_lt", "has_number_lte", "has_number_gte", "has_date_lt", "has_date_eq", "has_date_gt", "has_district", "has_category"]
+TESTS0 = ["has_text", "has_number", "has_email", "has_date", "has_time", "has_state", "has_error"]
 
 
 class FlowGen:
